@@ -2224,6 +2224,11 @@ class Node(_protocols.NodeProtocol, _display.PrettyPrintable):
         self._attributes: _graph_containers.Attributes = _graph_containers.Attributes(
             attributes, owner=self
         )
+        if graph is not None and outputs is not None:
+            # The graph is going to name the outputs: make sure it can, before claiming them
+            for output in outputs:
+                if output is not None:
+                    _check_value_can_be_named(output)
         # Values belong to their defining nodes. The values list is immutable
         self._outputs: tuple[Value, ...] = self._create_outputs(num_outputs, outputs)
         self._overload: str = overload
@@ -3568,6 +3573,19 @@ def Input(  # ruff: ignore[invalid-function-name]
     return Value(name=name, shape=shape, type=type, doc_string=doc_string)
 
 
+def _check_value_can_be_named(value: Value) -> None:
+    """Check that a value without a name can receive a generated one.
+
+    A value that joins a graph without a name is named by the graph's name authority, which also
+    renames the backing ``const_value``. A tensor whose name cannot be assigned would make that
+    step fail in the middle of the call, so it is probed here, in the checking phase: assigning a
+    tensor its own name is a no-op for every tensor that accepts renaming.
+    """
+    if value.name is None and value.const_value is not None:
+        tensor = value.const_value
+        tensor.name = tensor.name
+
+
 def _check_node_safe_to_remove(
     node: Node, to_remove: AbstractSet[Node], graph_outputs: AbstractSet[Value]
 ) -> None:
@@ -3678,6 +3696,7 @@ class Graph(_protocols.GraphProtocol, Sequence[Node], _display.PrettyPrintable):
         initializer_dict = {initializer.name: initializer for initializer in initializers}
         for value in inputs:
             self._inputs._check_value(value)  # pylint: disable=protected-access
+            _check_value_can_be_named(value)
         for value in outputs:
             self._outputs._check_value(value)  # pylint: disable=protected-access
         for key, value in initializer_dict.items():
@@ -3794,6 +3813,8 @@ class Graph(_protocols.GraphProtocol, Sequence[Node], _display.PrettyPrintable):
             raise ValueError(
                 f"The node '{node!r}' belongs to another graph. Please remove it first with Graph.remove()."
             )
+        for value in node._outputs:  # pylint: disable=protected-access
+            _check_value_can_be_named(value)
 
     def _set_node_graph_to_self_and_assign_names(self, node: Node) -> Node:
         """Set the graph reference for the node and assign names to it and its outputs if they don't have one."""
